@@ -242,6 +242,49 @@ def buildModel (b : Base) (lv : List (Name × Nat)) (maps : List (Name × List N
          derived := b.derived.map fun kd => (kd.1, { fn := kd.2.fn, args := kd.2.args.map (totalName lv) })
          rxns := rxns.flatten }
 
+/-! ### the public queries of `LabelMapper` -/
+
+/-- `LabelMapper.get_isotopomers`: `{name: _generate_binary_labels(name, num) for name, num in
+    label_variables.items()}` -/
+def getIsotopomers (lv : List (Name × Nat)) : List (Name × List LName) :=
+  lv.map fun kn => (kn.1, binaryLabels kn.1 kn.2)
+
+/-- `self.label_variables[name]` -/
+def labelCount (lv : List (Name × Nat)) (x : Name) : Except LErr Nat :=
+  match lv.lookup x with
+  | some n => .ok n
+  | none => .error (.keyError x)
+
+/-- `LabelMapper.get_isotopomer_of` -/
+def getIsotopomerOf (lv : List (Name × Nat)) (x : Name) : Except LErr (List LName) := do
+  let n ← labelCount lv x
+  pure (binaryLabels x n)
+
+/-- `LabelMapper.get_isotopomers_of_at_position` (positions as a list; non-negative indices):
+    `label_positions[position] = "1"` raises `IndexError` beyond the compound's positions; the regex
+    `name__<[01] or 1 per position>` is matched against the isotopomer names in their order (for a
+    compound without positions the only name `name` does not match `name__`) -/
+def isotopomersAtPosition (lv : List (Name × Nat)) (x : Name) (positions : List Nat) :
+    Except LErr (List LName) := do
+  let n ← labelCount lv x
+  if positions.any (fun p => decide (n ≤ p)) then .error .indexError
+  else if n = 0 then pure []
+  else pure (((patterns n).filter fun u => positions.all fun p => u.getD p false).map
+    fun u => ⟨x, some u⟩)
+
+/-- `it.combinations(xs, k)` in iteration order -/
+def combos : List Nat → Nat → List (List Nat)
+  | _, 0 => [[]]
+  | [], _ + 1 => []
+  | x :: xs, k + 1 => (combos xs k).map (x :: ·) ++ combos xs (k + 1)
+
+/-- `LabelMapper.get_isotopomers_of_with_n_labels`: one name `f"{name}__{pattern}"` per combination
+    of `k` positions (so a compound without positions and `k = 0` yields `name__`) -/
+def isotopomersWithNLabels (lv : List (Name × Nat)) (x : Name) (k : Nat) :
+    Except LErr (List LName) := do
+  let n ← labelCount lv x
+  pure ((combos (List.range n) k).map fun ps => ⟨x, some (initSuffix n ps)⟩)
+
 /-! ### numeric reading of a reaction list (what `get_right_hand_side` computes: the
     derivative of a variable is the sum over reactions of coefficient × rate) -/
 
